@@ -80,13 +80,49 @@ class NFalsy(N):
         return len(self.__dict__.get("kids") or ())
 
 
-def build_expr(g):
-    """g = [field, notify, optional, [children]] -> ObserverExpression (public expression API)."""
+EQKEY = {}    # id(object) -> value key: objects of class NEq compare equal iff their keys are equal
+
+
+class NEq(N):
+    """Record-like pool objects with a value-based __eq__ (the key defaults to the identity)."""
+
+    def __eq__(self, other):
+        return isinstance(other, N) and EQKEY.get(id(self), id(self)) == EQKEY.get(id(other), id(other))
+
+    def __ne__(self, other):
+        return not self.__eq__(other)
+
+    def __hash__(self):
+        return hash(EQKEY.get(id(self), id(self)))
+
+
+class NDict(N):
+    """A holder whose `kids` link is a Dict (heterogeneous paths: the same link name, another container kind)."""
+    kids = Dict(Str, Instance(HasTraits))
+
+    def _kids_default(self):
+        return {}
+
+
+_CLASSES = {}
+
+
+def pool_class(falsy, eqcls, dictkind):
+    key = (bool(falsy), bool(eqcls), bool(dictkind))
+    if key not in _CLASSES:
+        bases = tuple(b for b, on in ((NDict, dictkind), (NFalsy, falsy), (NEq, eqcls)) if on) or (N,)
+        _CLASSES[key] = bases[0] if len(bases) == 1 else type("P%d%d%d" % tuple(map(int, key)), bases, {})
+    return _CLASSES[key]
+
+
+def build_expr(g, hetero=False):
+    """g = [field, notify, optional, [children]] -> ObserverExpression (public expression API).
+    hetero: the items of a kids container are observed whatever its kind (list_items | dict_items, optional)."""
     f, notify, optional, children = g
     if f == "|":
-        e = build_expr(children[0])
+        e = build_expr(children[0], hetero)
         for c in children[1:]:
-            e = e | build_expr(c)
+            e = e | build_expr(c, hetero)
         return e
     if f == "anytrait":
         e = X.anytrait(notify=bool(notify))
@@ -102,6 +138,8 @@ def build_expr(g):
         e = X.dict_items(notify=bool(notify), optional=bool(optional))
     elif f == 18:
         e = X.list_items(notify=bool(notify), optional=bool(optional))
+    elif f == 6 and hetero:
+        e = X.list_items(notify=bool(notify), optional=True) | X.dict_items(notify=bool(notify), optional=True)
     elif f <= 5 or f >= 10:
         e = X.trait(FN[f], notify=bool(notify), optional=bool(optional))
     elif f in (6, 18):
@@ -111,16 +149,19 @@ def build_expr(g):
     else:
         e = X.set_items(notify=bool(notify), optional=bool(optional))
     if children:
-        sub = build_expr(children[0])
+        sub = build_expr(children[0], hetero)
         for c in children[1:]:
-            sub = sub | build_expr(c)
+            sub = sub | build_expr(c, hetero)
         e = e.then(sub)
     return e
 
 
 class World:
-    def __init__(self, npool, falsy=False):
-        self.pool = [(NFalsy if falsy else N)() for _ in range(npool)]
+    def __init__(self, npool, falsy=False, eqcls=False, dictkind=()):
+        LAZY.clear()             # keyed by id(): nothing of an earlier case may survive into this one
+        EQKEY.clear()
+        self.pool = [pool_class(falsy, eqcls, i in dictkind)() for i in range(npool)]
+        self.order = {}          # cid -> keys in positional order, for a `kids` container that is a dict
         self.atom = {id(o): i for i, o in enumerate(self.pool)}
         self.conts = {}          # cid -> container object (kept alive)
         self.cfield = {}         # cid -> pseudo-field holding its items (6 list, 7 dict, 8 set, 17 dict of lists)
@@ -264,7 +305,12 @@ class World:
             self.pending_field = f + 3
             self.next += 1
             try:
-                if f in (3, 15):
+                if f == 3 and isinstance(self.pool[o], NDict):
+                    keys = ["k%d" % (self.counter + j + 1) for j in range(len(items))]
+                    self.counter += len(items)
+                    val = {key: self.pool[a] for key, a in zip(keys, items)}
+                    self.order[self.pending] = list(keys)
+                elif f in (3, 15):
                     val = [self.pool[a] for a in items]
                 elif f == 14:
                     val = {}
@@ -333,8 +379,43 @@ class World:
         elif k == "Cop":
             _, c, f, meth, args = op[:5]
             cont = self.conts[c]
-            if f in (6, 18):
-                if meth == "append":
+            if f == 6 and isinstance(cont, TraitDict):
+                # a `kids` link that is a dict on this holder: the same positional operations, on generated keys
+                order = self.order.setdefault(c, list(cont))
+
+                def newkey():
+                    self.counter += 1
+                    return "k%d" % self.counter
+                if meth in ("append", "insert"):
+                    i, v = (len(order), args[0]) if meth == "append" else (args[0], args[1])
+                    key = newkey()
+                    order.insert(i, key)
+                    cont[key] = self.pool[v]
+                elif meth == "extend":
+                    for a in args[0]:
+                        key = newkey()
+                        order.append(key)
+                        cont[key] = self.pool[a]
+                elif meth in ("pop", "delitem"):
+                    key = order.pop(args[0])
+                    del cont[key]
+                elif meth in ("setitem", "setitem_eq"):
+                    cont[order[args[0]]] = self.pool[args[1]]
+                elif meth == "remove":
+                    i = next(j for j, key in enumerate(order) if cont[key] is self.pool[args[0]])
+                    del cont[order.pop(i)]
+                elif meth == "clear":
+                    del order[:]
+                    cont.clear()
+                else:
+                    raise ValueError(meth)
+            elif f in (6, 18):
+                if meth == "setitem_eq":
+                    # the fresh object compares equal (by value) to the one it replaces
+                    old = cont[args[0]]
+                    EQKEY[id(self.pool[args[1]])] = EQKEY.get(id(old), id(old))
+                    cont[args[0]] = self.pool[args[1]]
+                elif meth == "append":
                     cont.append(self.pool[args[0]])
                 elif meth == "insert":
                     cont.insert(args[0], self.pool[args[1]])
@@ -413,7 +494,7 @@ class World:
 
 
 def run_case(case):
-    w = World(case["npool"], bool(case.get("falsy")))
+    w = World(case["npool"], bool(case.get("falsy")), bool(case.get("eqcls")), set(case.get("dictkind") or ()))
     hist = []
     prev_heap, prev_hooks = None, None
     for op in case["ops"]:
